@@ -268,7 +268,8 @@ def usize_of(num_text):
 class C12(Base):
     ID = "C12"
     AREA = "num"
-    LEMMA_FILES = ["FluentProofs/Num.lean", "FluentProofs/NumOperands.lean", "FluentProofs/NumMerge.lean"]
+    LEMMA_FILES = ["FluentProofs/Num.lean", "FluentProofs/NumOperands.lean", "FluentProofs/NumMerge.lean",
+                   "FluentProofs/NumRules.lean"]
     RULE = ("case = bundle locale x value (number literal in the FTL source with sign / leading zeros / 0-18 fraction "
             "digits, argument of each of the 14 Rust number types, numeric string through try_number, "
             "FluentNumber::new, plain string) x NUMBER call (none / random subset of the 10 option names with valid, "
